@@ -493,10 +493,12 @@ def _protocols_nested_crash(trace, w, resp, comp, a, b):
   if not rq.get("opts", {}).get("protocols"):
     return False
   vals = {a, b}
-  if "<no crash>" not in vals:
-    return False
-  other = (vals - {"<no crash>"}).pop()
-  return bool(_NESTED.match(other or ""))
+  if "<no crash>" in vals:
+    other = (vals - {"<no crash>"}).pop()
+    return bool(_NESTED.match(other or ""))
+  # both sides failed in that lookup, naming different nested classes (which
+  # one is met first depends on what the loader holds and in which order)
+  return all(_NESTED.match(x or "") for x in vals)
 
 
 def _lkey(trace, rq):
